@@ -1280,6 +1280,12 @@ class Shape:
         # ---- mips / ppc
         for arch in ("mips", "ppc"):
             pre = "translator::%s::semantics::" % arch
+            # the register type and its lookup may live in any module of the architecture's translator
+            if d.startswith("translator::%s::" % arch) and not d.startswith(pre):
+                tail_ = d.split("::")[3:]
+                if tail_ and tail_[-1] in ("get_register", "scalar", "expression", "name") and \
+                        (tail_[-1] == "get_register" or (len(tail_) >= 2 and tail_[-2].endswith("Register"))):
+                    d = pre + "::".join(tail_[-2:] if tail_[-1] != "get_register" else tail_[-1:])
             if d == pre + "get_register":
                 a = args[-1] if args else None
                 if isinstance(a, tuple) and a[0] == "obj" and "()" in a[1]:
